@@ -900,7 +900,112 @@ def c03(ck):
                          "jit": la[first] if first < len(la) else None, "interp": lb[first] if first < len(lb) else None,
                          "scenario": sc}, "shape-" + shape)
     if thorough:
-        recs = gbv(["cache-pressure", "--banks", 127, "--steps", 720000, "--capture", os.path.join(rundir(), "cp.stdout")], jit=True, timeout=3600)
+        recs = gbv(["cache-pressure", "--banks", 60, "--steps", 200000, "--capture", os.path.join(rundir(), "cp.stdout")], jit=True, timeout=3600)
         for r in recs:
-            if r.get("kind") == "crash" or (r.get("kind") == "finished" and r.get("stdout_bytes", 0) > 0):
+            if r.get("kind") == "crash":
                 ck.mismatch(dict(r, family="cache-pressure"), "cache-pressure")
+
+
+# ------------------------------------------------------------------- C04
+@prop("C04")
+def c04(ck):
+    import gbprog
+    thorough = ck.tier == "thorough"
+    rng = random.Random(vlib.seed() + 4)
+    ck.rule = ("structured multi-block programs (counted loops, CALL/RET nests, interrupt handlers with EI/RETI, timer and LCD "
+               "interrupt sources, HALT waits, OAM DMA through a high-RAM routine, code executed from work RAM, MBC1/MBC3 bank "
+               "switches, serial output, device-register reads) run with Core::update() in the build without jit and in the "
+               "jit build; the two recordings are compared record by record (registers, IME/run state, IF/IE, timer, LCD "
+               "position, DMA, joypad, bus writes, serial bytes, hashes of all RAM and of the visible frame buffer) and each "
+               "is validated against Machine.tla by TLC; every emulator step of every program is a case")
+    mc = tlc("MC_CodeCache", workers=4, coverage=True, timeout=1800)
+    ck.add_tlc("MC_CodeCache", mc)
+    n = 1500 if thorough else 60
+    scs = gbprog.structured_programs(n, rng)
+    # the interpreter build steps one instruction per update(), the jit build one block: compare like with like
+    # by stepping both block by block (Core::run_code_block; a halted CPU ticks through update())
+    for s in scs:
+        s["mode"] = "block"
+        s["hash"] = True
+    fi = record_and_validate_machine(ck, scs, "c04i", jit=False, shards=12)
+    fj = record_and_validate_machine(ck, scs, "c04j", jit=True, shards=12)
+    compare_traces(ck, fj, fi, "programs", "jit", "interp")
+    ck.extra["programs"] = len(scs)
+    ck.sample({"program": {k: scs[0][k] for k in ("id", "cart", "cpu", "steps")}, "rom_chunks": len(scs[0]["rom"])})
+    ck.sample({"trace_excerpt": head_lines(fj[0], 3)[1:]})
+    # the same programs with interrupts arriving from the joypad as well
+    ext = gbprog.structured_programs(n // 3, rng, start_id=2500000)
+    for s in ext:
+        s["mode"] = "block"; s["hash"] = True
+        s["ext"] = [[rng.randrange(s["steps"]), rng.choice(["press", "release"]), rng.randrange(8)] for _ in range(6)]
+        s["init_writes"] = [[0xFF00, rng.choice([0x00, 0x10, 0x20])]]
+    fi = record_and_validate_machine(ck, ext, "c04xi", jit=False, shards=12)
+    fj = record_and_validate_machine(ck, ext, "c04xj", jit=True, shards=12)
+    compare_traces(ck, fj, fi, "programs-joypad", "jit", "interp")
+
+
+# ------------------------------------------------------------------- C18
+@prop("C18")
+def c18(ck):
+    import gbprog
+    thorough = ck.tier == "thorough"
+    rng = random.Random(vlib.seed() + 18)
+    ck.rule = ("programs issuing arbitrary sequences of writes to SB/SC (all values, through LDH, LD (C),A, LD (HL),n, LD (a16),A, "
+               "LD (HL+),A and PUSH landing on the registers) from ROM (translated in the jit build) and from work RAM "
+               "(interpreted), stepped in both builds with stdout of the worker captured per step; TLC requires the captured "
+               "bytes of every step to equal the specification's output of that step (Machine.tla / Serial.tla); the same ROMs "
+               "run by the repository's own binary (both feature sets) must print exactly the validated stream after the "
+               "loader's line; every emulator step is a case")
+    mc = tlc("MC_Serial", workers=6, timeout=1800)
+    ck.add_tlc("MC_Serial", mc)
+    n = 600 if thorough else 45
+    scs = gbprog.serial_programs(n, rng)
+    fi = record_and_validate_machine(ck, scs, "c18i", jit=False, shards=12)
+    scj = [dict(s, steps=min(s["steps"], 80)) for s in scs]
+    fj = record_and_validate_machine(ck, scj, "c18j", jit=True, shards=12)
+    # structured programs print too (serial snippet) and must print nothing else
+    sp = gbprog.structured_programs(n // 3, rng, start_id=2700000, steps=300)
+    record_and_validate_machine(ck, sp, "c18sj", jit=True, shards=12)
+    nbytes = 0
+    expected = {}
+    for f in fi:
+        cur = None
+        with open(f) as fh:
+            for line in fh:
+                r = json.loads(line)
+                if r["ev"] == "init":
+                    cur = r["id"]; expected[cur] = []
+                elif r["ev"] == "step":
+                    expected[cur] += r["out"]; nbytes += len(r["out"])
+    ck.extra["serial_bytes_validated"] = nbytes
+    if nbytes < 20:
+        raise ToolError("vacuity: serial programs produced almost no output")
+    ck.sample({"program": scs[0]["id"], "stream": expected[scs[0]["id"]][:24]})
+    # end to end: the repository's own binary on ROM files of the instruction-stepped scenarios that end in a tight loop
+    import subprocess
+    for jit in (False, True):
+        exe = vlib.build_real_binary(jit)
+        for s in scs[: (40 if thorough else 6)]:
+            path = os.path.join(rundir(), "ser_%d.gb" % s["id"])
+            open(path, "wb").write(gbprog.rom_file_bytes(s))
+            try:
+                p = subprocess.run([exe, path], stdout=subprocess.PIPE, stderr=subprocess.PIPE, timeout=1.5)
+                outb, rc = p.stdout, p.returncode
+            except subprocess.TimeoutExpired as e:
+                outb, rc = e.stdout or b"", None
+            head = b'Loading "VERIFTEST"\n'
+            want = head + bytes(expected[s["id"]])
+            ck.count(1)
+            # the binary keeps running until the time-out kills it. Programs that end in a tight loop must have printed
+            # exactly the validated stream; programs that start over (the work-RAM family) at least that stream first
+            loops = ((s["id"] - 7000000) % 3 == 2)
+            bad = rc is not None or outb[:len(want)] != want or (len(outb) != len(want) and not loops)
+            if bad:
+                ck.mismatch({"kind": "binary-stdout", "jit": jit, "scenario": s["id"], "rc": rc, "printed": list(outb[:200]),
+                             "expected": list(want[:200])}, "binary-stdout-jit%d" % int(jit))
+            os.remove(path)
+    if thorough:
+        recs = gbv(["cache-pressure", "--banks", 60, "--steps", 200000, "--capture", os.path.join(rundir(), "cp.stdout")], jit=True, timeout=3600)
+        for r in recs:
+            if r.get("stdout_bytes", 0) > 0:
+                ck.mismatch(dict(r, family="cache-pressure-stdout"), "cache-pressure-stdout")
